@@ -86,7 +86,7 @@ func init() {
 		ID:    "C17",
 		Title: "Clock-relative behaviour is right at every minute of the day",
 		Rule: "EVERY minute 0..1439 of the clock x calendar days (quick: an ordinary day and the day after a leap day; thorough: also month end, Feb 28 common/leap, Feb 29, Dec 31, Jan 1) x roundings {none,5,10,12,15,20,30,60} " +
-			"(as --round and, on a stride, as default_rounding) x date selection {default, --today, --yesterday, --tomorrow, explicit --date} x 8 record layouts (no file content, today without/with open range, yesterday's open range, both, yesterday closed, tomorrow's open range, open range two days ago) x {start, stop, switch}; " +
+			"(as --round and, on a stride, as default_rounding; on another stride with time_convention = 12h) x date selection {default, --today, --yesterday, --tomorrow, explicit --date} x 8 record layouts (no file content, today without/with open range, yesterday's open range, both, yesterday closed, tomorrow's open range, open range two days ago) x {start, stop, switch}; " +
 			"plus `klog total --now` at every minute x 6 layouts (open range today/yesterday/older/tomorrow, starting before and after now). A case = (day, minute, command line, layout); all distinct.",
 		Assumptions: []string{
 			"model (cmdmodel.go): rounded = nearest multiple, ties up (may reach 24:00); relative to the target date +24h for yesterday's record and -24h for tomorrow's; representable iff within <0:00 .. 23:59>; stop falls back to the previous day only when no date/time was given and today has no record; an unrepresentable time must be refused with an error, never crash, never write another time",
@@ -165,6 +165,10 @@ func (x *c17X) one(day sm.Date, minute int, o Op, lay int, viaCLI bool) {
 	if o.Round != "" && (minute+lay)%7 == 0 && !viaCLI {
 		// the same rounding as a configured default instead of the flag
 		env.DefaultRound, o.Round = o.Round, ""
+	}
+	if (minute+2*lay)%5 == 0 {
+		// the written time in the 12-hour convention (the value must be the same)
+		env.TimeConv = "12h"
 	}
 	cs := func() c17Case {
 		return c17Case{Day: sm.DateLit{Date: day}.String(), Minute: minute, Op: o, Layout: lay, File: fw.Txt(before), Fam: "cmd"}
